@@ -591,10 +591,96 @@ def _result_dt(d1, d2, scalar_other=False, div=False):
 _sym_elems = _np.frompyfunc(_S, 1, 1)
 
 
+_INT_TABLE = None
+
+
+def _ints_to_syms(r):
+    """object array of (shared, immutable) Sym constants for an int array with entries in (-1000, 1000)"""
+    global _INT_TABLE
+    if _INT_TABLE is None:
+        _INT_TABLE = _np.empty(2001, dtype=object)
+        for v in range(-1000, 1001):
+            _INT_TABLE[v + 1000] = Sym.const(v)
+    if r.size and (r.min() <= -1000 or r.max() >= 1000):
+        out = _np.empty(r.shape, dtype=object)
+        fo = out.reshape(-1)
+        for k, v in enumerate(r.reshape(-1).tolist()):
+            fo[k] = Sym.const(v)
+        return out
+    return _INT_TABLE[r + 1000]
+
+
+def _as_small_int_array(a):
+    """int64 copy of an object array whose entries are all small integer constants, else None (fast path for 0/1 matrices)"""
+    if a.size < 4096:
+        return None
+    out = _np.empty(a.shape, dtype=_np.int64)
+    fo, fi = out.reshape(-1), a.reshape(-1)
+    for k in range(fi.shape[0]):
+        v = fi[k]
+        if isinstance(v, Sym):
+            if not v.n:
+                fo[k] = 0
+                continue
+            if len(v.n) == 1 and v.d is None:
+                c = v.n.get(())
+                if c is not None and c.denominator == 1 and -1000 < c.numerator < 1000:
+                    fo[k] = c.numerator
+                    continue
+            return None
+        if isinstance(v, int) and not isinstance(v, bool) and -1000 < v < 1000:
+            fo[k] = v
+            continue
+        return None
+    return out
+
+
 def _matmul(x, y):
     if x.ndim == 0 or y.ndim == 0:
         raise ValueError("matmul: Input operand does not have enough dimensions")
+    if x.ndim == 2 and y.ndim == 2 and x.size >= 4096 and y.size >= 4096:
+        xi = _as_small_int_array(x)
+        if xi is not None:
+            yi = _as_small_int_array(y)
+            if yi is not None:
+                return _ints_to_syms(xi @ yi)    # exact: integer arithmetic
+    # sparse integer matrix (permutations, 0/1 tables) times a symbolic operand: work over the non-zeros only
+    if x.ndim == 2 and x.size >= 4096 and y.ndim in (1, 2):
+        xi = _as_small_int_array(x)
+        if xi is not None and _np.count_nonzero(xi) * 8 <= xi.size:
+            return _int_left_matmul(xi, y)
+    if y.ndim == 2 and y.size >= 4096 and x.ndim in (1, 2):
+        yi = _as_small_int_array(y)
+        if yi is not None and _np.count_nonzero(yi) * 8 <= yi.size:
+            r = _int_left_matmul(yi.T, x.T if x.ndim == 2 else x)
+            return r.T if x.ndim == 2 else r
     return _np.matmul(x, y)
+
+
+def _int_left_matmul(xi, y):
+    """xi (int64, sparse) @ y (object array, 1-D or 2-D) using only the non-zero entries of xi"""
+    n = xi.shape[0]
+    out = _np.empty((n,) + tuple(y.shape[1:]), dtype=object)
+    zero = Sym.const(0)
+    rows, cols = _np.nonzero(xi)
+    start = _np.searchsorted(rows, _np.arange(n + 1))
+    for i in range(n):
+        acc = None
+        for t in range(start[i], start[i + 1]):
+            j = cols[t]
+            c = int(xi[i, j])
+            term = y[j] if c == 1 else y[j] * c
+            acc = term if acc is None else acc + term
+        if acc is None:
+            if y.ndim == 1:
+                out[i] = zero
+            else:
+                row = _np.empty(y.shape[1:], dtype=object)
+                row.fill(zero)
+                out[i] = row
+        else:
+            out[i] = acc
+    return out
 
 
 def _pyand(a, b):
@@ -889,7 +975,27 @@ def outer(a, b):
 
 def kron(a, b):
     a, b = _A(a), _A(b)
+    if a.a.size * b.a.size >= 4096:
+        ai, bi = _as_small_int_array(a.a) if a.a.size >= 4096 else _small_ints(a.a), None
+        if ai is not None:
+            bi = _as_small_int_array(b.a) if b.a.size >= 4096 else _small_ints(b.a)
+        if ai is not None and bi is not None:
+            return SymArray(_ints_to_syms(_np.kron(ai, bi)), _result_dt(a.dt, b.dt))
     return SymArray(_np.kron(a.a, b.a), _result_dt(a.dt, b.dt))
+
+
+def _small_ints(a):
+    out = _np.empty(a.shape, dtype=_np.int64)
+    fo, fi = out.reshape(-1), a.reshape(-1)
+    for k in range(fi.shape[0]):
+        v = fi[k]
+        if isinstance(v, Sym) and v.d is None and (not v.n or (len(v.n) == 1 and () in v.n and v.n[()].denominator == 1)):
+            fo[k] = int(v.n.get((), 0))
+        elif isinstance(v, int) and not isinstance(v, bool):
+            fo[k] = v
+        else:
+            return None
+    return out
 
 
 def trace(x, offset=0):
